@@ -59,6 +59,7 @@ def check(program: Program, run: Run) -> None:
     run.rule("R1 quote-wrap requires escape: inner text of every '...'-span is escaped(q), quote-free by kind, or a rendered slot")
     run.rule("R2 dialect escape coverage: every value position of a dialect builder constructs its wrapper via self._wrapper_cls (or the base wrapper consults ctx.dialect)")
     run.rule("R3 value wrappers emit one literal fragment on every path")
+    run.rule("R4 escape once: no .replace(c, c*2) is applied to text that an identical .replace already went through on the same render path")
     fsk = function_skeletons(program)
     sinks = 0
     seen = set()
@@ -169,3 +170,50 @@ def check(program: Program, run: Run) -> None:
         run.ob("C05/R3 value wrapper emits one literal fragment per path", c.qualname, bad == 0, detail=f"{total} paths, {bad} with more than one fragment")
         if bad:
             run.finding(f"C05/multi-fragment:{c.qualname}.get_value_sql", f"{c.qualname}.get_value_sql can emit more than one fragment for a single value", rule="R3")
+
+    # ---- R4 escape once: doubling a delimiter twice makes the literal decode to a different value.  The fully inlined
+    # skeleton of each wrapper's get_value_sql (super() and cls-recursion through get_formatted_value included) is
+    # searched for a replace whose subject already contains the same replace.
+    import dataclasses
+    from ..symex import Opaque as _Op
+
+    def walk(x, stack, out, d=0):
+        if d > 80 or isinstance(x, (str, int, float, bool, type(None))):
+            return
+        if isinstance(x, (tuple, list, frozenset)):
+            for i in x:
+                walk(i, stack, out, d + 1)
+            return
+        sig = subj = None
+        if isinstance(x, _Op) and x.name == ".replace" and len(x.extra) >= 2:
+            sig, subj = (show(x.extra[0], -8), show(x.extra[1], -8)), x.inner
+        elif isinstance(x, Sym) and x.kind == "call" and x.args and x.args[0] == ".replace" and len(x.args) >= 4 and not any(isinstance(a, Sym) and a.kind == "kw" for a in x.args):
+            sig, subj = (show(x.args[2], -8), show(x.args[3], -8)), x.args[1]
+        if sig is not None:
+            out.append((sig, tuple(stack), getattr(x, "src", ()) or ()))
+            walk(subj, stack + [sig], out, d + 1)
+            return
+        if dataclasses.is_dataclass(x):
+            for fld in dataclasses.fields(x):
+                if fld.name in ("src", "cond", "ctx", "recv"):
+                    continue
+                walk(getattr(x, fld.name), stack, out, d + 1)
+
+    nrep = 0
+    for c in [vw] + [k for k in program.all_classes() if k.is_subclass_of(vw) and k is not vw]:
+        v, _ = render(program, c, "get_value_sql")
+        out = []
+        walk(v, [], out)
+        nrep += len(out)
+        dup = sorted({sig for sig, st, _ in out if sig in st})
+        run.ob("C05/R4 no delimiter is doubled twice on one render path", c.qualname, not dup, detail=f"{len(out)} escape applications; repeated: {dup[:2]}",
+               where=c.resolve("get_value_sql").loc())
+        for sig in dup:
+            srcs = [sr for sg, st, sr in out if sg == sig and sg in st and sr]
+            run.finding(f"C05/double-escape:{c.qualname}:{sig[0]}",
+                        f"{c.qualname}.get_value_sql can apply .replace({sig[0]}, {sig[1]}) to text that already went through the same replacement "
+                        "(an override re-entered through super()/cls recursion, e.g. an Enum member unwrapped to its value and escaped again): the literal decodes to a different value",
+                        where=f"{srcs[0][2]}:{srcs[0][1]}" if srcs else c.resolve("get_value_sql").loc(), rule="R4")
+    run.analysed["escape_applications"] = nrep
+    if nrep < 3:
+        raise AnalysisError(f"instance count below floor: escape applications {nrep}")
